@@ -9,6 +9,7 @@ package store
 // evaluated with the call-site arguments regenerated from store/store.go.
 
 import (
+	"context"
 	"errors"
 	"fmt"
 	"sync"
@@ -218,5 +219,118 @@ func TestVerifC31(t *testing.T) {
 		}(ci, c)
 	}
 	wg.Wait()
+	c31OverlappingBackups(t, rep)
 	rep.vfCompareSegments("casretry", allOps, allImpl)
+}
+
+// c31GateWriter is a backup destination that blocks in its first Write until released, and
+// says when that Write was entered: it keeps a backup "streaming" for as long as we like.
+type c31GateWriter struct {
+	entered chan struct{}
+	release chan struct{}
+	once    sync.Once
+	n       int
+}
+
+func (w *c31GateWriter) Write(p []byte) (int, error) {
+	w.once.Do(func() { close(w.entered); <-w.release })
+	w.n += len(p)
+	return len(p), nil
+}
+
+// c31OverlappingBackups: every operation that relies on the gate must hold it itself. Two
+// binary backups overlap; the second must not stream while the first holds the gate, and a
+// Close issued while the second streams must wait for it ("waits for that operation").
+func c31OverlappingBackups(t *testing.T, rep *vfReport) {
+	s, ln := mustNewStore(t)
+	defer ln.Close()
+	s.NoSnapshotOnClose = true
+	if err := s.Open(); err != nil {
+		t.Errorf("open: %v", err)
+		return
+	}
+	if err := s.Bootstrap(NewServer(s.ID(), s.Addr(), true)); err != nil {
+		t.Errorf("bootstrap: %v", err)
+		return
+	}
+	if _, err := s.WaitForLeader(20 * time.Second); err != nil {
+		t.Errorf("leader: %v", err)
+		return
+	}
+	if _, _, err := s.Execute(context.Background(), executeRequestFromStrings([]string{"CREATE TABLE foo (id INTEGER NOT NULL PRIMARY KEY, name TEXT)", `INSERT INTO foo(name) VALUES("fiona")`}, false, false)); err != nil {
+		t.Errorf("execute: %v", err)
+		return
+	}
+	_ = s.Snapshot(0) // empty the WAL so that the backups do not need a pre-backup snapshot
+	start := time.Now()
+	since := func() time.Duration { return time.Since(start) }
+	w1 := &c31GateWriter{entered: make(chan struct{}), release: make(chan struct{})}
+	w2 := &c31GateWriter{entered: make(chan struct{}), release: make(chan struct{})}
+	b1, b2 := make(chan error, 1), make(chan error, 1)
+	go func() { b1 <- s.Backup(context.Background(), backupRequestBinary(true, false, false), w1) }()
+	select {
+	case <-w1.entered:
+	case err := <-b1:
+		t.Errorf("first backup ended early: %v", err)
+		return
+	case <-time.After(20 * time.Second):
+		t.Errorf("first backup never started streaming")
+		return
+	}
+	replay := map[string]interface{}{"scenario": "backup 1 streams (holds the gate); backup 2 starts; backup 1 finishes; Close(true) while backup 2 streams; backup 2 finishes"}
+	go func() { b2 <- s.Backup(context.Background(), backupRequestBinary(true, false, false), w2) }()
+	// while backup 1 holds the gate, backup 2 must not stream (it waits for the gate, or fails)
+	concurrent := false
+	select {
+	case <-w2.entered:
+		concurrent = true
+		rep.Fail("backup-streams-without-holding-the-gate", fmt.Sprintf("a second backup started streaming at %v while the first backup still held the gate (owner %q): it relies on a hold that is not its own", since(), s.snapshotCAS.Owner()), replay)
+	case <-time.After(300 * time.Millisecond):
+	}
+	close(w1.release)
+	if err := <-b1; err != nil {
+		t.Errorf("first backup: %v", err)
+	}
+	// backup 2 now gets the gate (unless it failed with the CAS error) and streams
+	streaming2 := concurrent
+	if !concurrent {
+		select {
+		case <-w2.entered:
+			streaming2 = true
+		case err := <-b2:
+			rep.Note("overlapping backups: the second backup ended with %v before streaming", err)
+		case <-time.After(20 * time.Second):
+			rep.Fail("second-backup-never-got-the-gate", "20 s after the first backup ended", replay)
+		}
+	}
+	if streaming2 {
+		closed := make(chan error, 1)
+		go func() { closed <- s.Close(true) }()
+		select {
+		case err := <-closed:
+			rep.Fail("close-returned-while-backup-in-flight", fmt.Sprintf("Close(true) returned (%v) at %v while the second backup was still streaming; gate owner then %q", err, since(), s.snapshotCAS.Owner()), replay)
+			close(w2.release)
+			<-b2
+		case <-time.After(400 * time.Millisecond):
+			tRel := since()
+			close(w2.release)
+			if err := <-b2; err != nil {
+				rep.Note("overlapping backups: second backup returned %v", err)
+			}
+			select {
+			case err := <-closed:
+				if err != nil {
+					rep.Fail("close-failed-although-gate-released-within-limit", fmt.Sprintf("Close returned %v after the second backup ended", err), replay)
+				} else if since()-tRel > 3500*time.Millisecond+time.Second {
+					rep.Fail("close-slow-after-gate-release", fmt.Sprintf("Close returned %v after the second backup ended", since()-tRel), replay)
+				}
+			case <-time.After(30 * time.Second):
+				rep.Fail("close-never-returned-after-backup", "30 s after the second backup ended", replay)
+			}
+		}
+	} else {
+		_ = s.Close(true)
+	}
+	rep.Case("overlapping-backups", true)
+	rep.Count("store:overlapping-backups-scenario")
 }
